@@ -32,7 +32,7 @@ impl<const CAP: usize> RecordMaybeUninit<CAP> {
     pub unsafe fn write<T>(&mut self, offset: usize, t: T) {
         // The record is not necessarily aligned at this stage (generated constructors fill a bare
         // buffer before wrapping it in the aligned record type)
-        std::ptr::write_unaligned((self.data.as_ptr().add(offset) as *mut u8).cast(), t);
+        std::ptr::write_unaligned((self.data.as_mut_ptr().add(offset) as *mut u8).cast(), t);
     }
 
     /// Gets a reference to object of type `T` from the record at offset `offset`.
@@ -50,7 +50,7 @@ impl<const CAP: usize> RecordMaybeUninit<CAP> {
     ///
     /// This function should not be called by anything but truc-generated code.
     pub unsafe fn get_mut<T>(&mut self, offset: usize) -> &mut T {
-        &mut *(self.data.as_ptr().add(offset) as *mut u8).cast()
+        &mut *(self.data.as_mut_ptr().add(offset) as *mut u8).cast()
     }
 }
 
